@@ -5,7 +5,7 @@
 //! the full projected state.
 //!
 //! modes:
-//!   random --seed S --n EVENTS --runs RUNS [--d 1|2] [--vi K] --out trace.ndjson [--ops ops.ndjson]
+//!   random --seed S --n EVENTS --runs RUNS [--d 1|2] [--vi K] [--proto 1] --out trace.ndjson [--ops ops.ndjson]
 //!   replay --in ops.ndjson --out trace.ndjson          (operation scripts, e.g. printed by TLC)
 //!   grid   --out trace.ndjson [--max 40]               (funding-rate probes over the domain of MC_Funding)
 //!
@@ -369,6 +369,34 @@ impl<const D: u8> World<D> {
         let (wok, w) = one(PnlFactorKind::MaxAfterWithdrawal, false);
         json!({"dep_ok": dok, "dep": d, "wd_ok": wok, "wd": w})
     }
+}
+
+/// C11 probe: the real `pnl_value` of one open position (the operation's slot if open, else the first
+/// open one) at the current prices and at a higher index price, for a full close and a partial close `d`.
+fn pnl_probe<const D: u8>(w: &mut World<D>, slot_hint: usize) -> Value {
+    let zero = json!({"ok": false, "pnl": 0, "unc": 0, "dtok": 0});
+    let slot = if (1..=NPOS).contains(&slot_hint) && w.ps[slot_hint - 1].size_in_usd > 0 {
+        Some(slot_hint - 1)
+    } else {
+        (0..NPOS).find(|i| w.ps[*i].size_in_usd > 0)
+    };
+    let Some(i) = slot else {
+        return json!({"has": false, "slot": 1, "d": 0, "k": 0, "f1": zero, "f2": zero, "q1": zero, "q2": zero});
+    };
+    let k = 1 + (w.step % 3);
+    let size = w.ps[i].size_in_usd;
+    let d = size / 3 + 1;
+    let px1 = w.px;
+    let px2 = Px { imin: px1.imin + k, imax: px1.imax + k, ..px1 };
+    let mut one = |px: Px, delta: u64| {
+        let mut p = w.ps[i];
+        match guarded(|| p.ops(&mut w.m).pnl_value(&px.prices(), &delta)) {
+            Ok(Ok((pnl, unc, dtok))) => json!({"ok": true, "pnl": pnl, "unc": unc, "dtok": dtok}),
+            _ => json!({"ok": false, "pnl": 0, "unc": 0, "dtok": 0}),
+        }
+    };
+    let (f1, f2, q1, q2) = (one(px1, size), one(px2, size), one(px1, d), one(px2, d));
+    json!({"has": true, "slot": i + 1, "d": d, "k": k, "f1": f1, "f2": f2, "q1": q1, "q2": q2})
 }
 
 fn vi_json<const D: u8>(m: &TestMarket<u64, D>) -> Value {
@@ -875,6 +903,7 @@ impl<const D: u8> World<D> {
         }
         self.m.callbacks.clear();
         self.step += 1;
+        let c11 = pnl_probe(self, pos_idx);
         let ncb = cbs.iter().filter(|c| c.starts_with("insufficient_funding")).count();
         let ev = json!({
             "reset": self.fresh, "run": self.run, "step": self.step, "unit": 10u64.pow(D as u32),
@@ -886,7 +915,7 @@ impl<const D: u8> World<D> {
             "b": self.borrowing_probe(), "pp": out.pp,
             // additive fields for the composed specification (specs/Exchange.tla, Trace_Exchange)
             "cx": self.cfg.json_full(self.vi), "vi": vi_json(&self.m), "rx": Value::Object(out.rx),
-            "pv": self.pool_value_probe(),
+            "pv": self.pool_value_probe(), "c11": c11,
             "part": out.part.unwrap_or_else(|| json!({"has": false, "m": self.market_json(), "vi": vi_json(&self.m),
                                                       "p": pos_core_json(&self.ps[pos_idx.clamp(1, NPOS) - 1])})),
         });
@@ -960,7 +989,40 @@ fn gen_decrease<const D: u8>(w: &World<D>, rng: &mut Rng, kind: u64) -> Value {
     }
 }
 
-fn gen_ops<const D: u8>(w: &World<D>, rng: &mut Rng, long_is_index: bool, k: u64) -> Vec<Value> {
+/// what the programs run before an action (`update_fees_state`; a swap step updates the borrowing state)
+fn pre_execute(v: &mut Vec<Value>, op: &Value) {
+    match op.get("op").and_then(|x| x.as_str()).unwrap_or("") {
+        "deposit" | "withdraw" | "increase" | "decrease" => {
+            v.push(json!({"op": "distribute"}));
+            v.push(json!({"op": "update_borrowing"}));
+            v.push(json!({"op": "update_funding"}));
+        }
+        "swap" => v.push(json!({"op": "update_borrowing"})),
+        _ => {}
+    }
+}
+
+fn gen_ops<const D: u8>(w: &World<D>, rng: &mut Rng, long_is_index: bool, k: u64, proto: bool) -> Vec<Value> {
+    let v = gen_ops_raw(w, rng, long_is_index, k);
+    if !proto {
+        return v;
+    }
+    // --proto 1: every action is preceded by the programs' pre-execute updates (no randomness consumed)
+    let mut out = Vec::new();
+    let mut updated = false;
+    for o in v {
+        let name = o.get("op").and_then(|x| x.as_str()).unwrap_or("").to_string();
+        if name == "update_funding" || name == "update_borrowing" {
+            updated = true;
+        } else if !updated {
+            pre_execute(&mut out, &o);
+        }
+        out.push(o);
+    }
+    out
+}
+
+fn gen_ops_raw<const D: u8>(w: &World<D>, rng: &mut Rng, long_is_index: bool, k: u64) -> Vec<Value> {
     let mut v = Vec::new();
     if rng.chance(3, 10) {
         v.push(gen_price(w, rng, long_is_index));
@@ -1007,6 +1069,7 @@ fn run_random<const D: u8>(a: &Args) {
     let runs = a.num("runs", 60).max(1);
     let per_run = (n / runs).max(8);
     let vi_every = a.num("vi", 0);
+    let proto = a.num("proto", 0) != 0;
     let mut sink = Sink::create(&a.str("out", "trace.ndjson"));
     let mut ops_sink = a.get("ops").map(Sink::create);
     let mut rng = Rng::new(seed ^ ((D as u64) << 40));
@@ -1033,7 +1096,7 @@ fn run_random<const D: u8>(a: &Args) {
         let mut cursor = 1usize; // script[0] is the reset itself
         while emitted < per_run {
             if cursor >= script.len() {
-                let more = gen_ops(&w, &mut rng, long_is_index, k);
+                let more = gen_ops(&w, &mut rng, long_is_index, k, proto);
                 k += 1;
                 script.extend(more);
             }
